@@ -196,16 +196,31 @@ Proof.
   - rewrite nth_overflow by assumption. reflexivity.
 Qed.
 
+Lemma nth_path_ok n p : paths_ok own_paths = true -> handoff_ok (nth p (nth n own_paths []) []) = true.
+Proof.
+  intros H. unfold paths_ok in H. rewrite forallb_forall in H.
+  destruct (Nat.lt_ge_cases n (length own_paths)) as [Hl|Hg].
+  - pose proof (H _ (nth_In own_paths [] Hl)) as Hf. rewrite forallb_forall in Hf.
+    destruct (Nat.lt_ge_cases p (length (nth n own_paths []))) as [Hl'|Hg'].
+    + apply Hf. now apply nth_In.
+    + rewrite nth_overflow by assumption. reflexivity.
+  - rewrite (nth_overflow own_paths [] Hg). destruct p; reflexivity.
+Qed.
+
 Theorem no_write_after_handoff :
   forallb handoff_ok own_all = true ->
+  paths_ok own_paths = true ->
   forall es, orun oinit es = true.
 Proof.
-  intros Hok es.
+  intros Hok Hpok es.
   assert (G : forall s, linv s [] [] -> orun s es = true).
   { induction es as [|e es IH]; intros s I; [reflexivity|]. cbn [orun].
-    destruct e as [n choices|id]; cbn [ostep].
+    destruct e as [n choices|n p choices|id]; cbn [ostep].
     - pose proof (run_fn_safe (nth n own_all []) s [] [] choices I (nth_own_ok n Hok)) as H.
       destruct (run_fn s (nth n own_all []) choices) as [[s' ok] rest]. destruct H as [-> I'].
+      cbn. now apply IH.
+    - pose proof (run_fn_safe (nth p (nth n own_paths []) []) s [] [] choices I (nth_path_ok n p Hpok)) as H.
+      destruct (run_fn s (nth p (nth n own_paths []) []) choices) as [[s' ok] rest]. destruct H as [-> I'].
       cbn. now apply IH.
     - destruct (mem id (consumer s)) eqn:Em; [|cbn; now apply IH].
       cbn. apply IH. apply mem_In in Em.
@@ -229,3 +244,61 @@ Qed.
 (* the discipline holds of the functions translated from this source *)
 Lemma own_all_ok : forallb handoff_ok own_all = true.
 Proof. vm_compute. reflexivity. Qed.
+
+Lemma own_paths_ok : paths_ok own_paths = true.
+Proof. vm_compute. reflexivity. Qed.
+
+Lemma own_paths_within : paths_within own_all own_paths = true.
+Proof. vm_compute. reflexivity. Qed.
+
+(* the invariant behind the theorem, exported: after any event sequence that ran safely the
+   consumer holds none of the parser's current buffers - so whatever is called next, its writes
+   are safe.  (Used for the converse direction below.) *)
+Fixpoint ofinal (s : ost) (es : list oevent) : ost :=
+  match es with [] => s | e :: t => ofinal (fst (ostep s e)) t end.
+
+Lemma ofinal_linv : forallb handoff_ok own_all = true -> paths_ok own_paths = true ->
+  forall es s, linv s [] [] -> linv (ofinal s es) [] [].
+Proof.
+  intros Hok Hpok es. induction es as [|e es IH]; intros s I; [exact I|].
+  cbn [ofinal]. apply IH. destruct e as [n choices|n p choices|id]; cbn [ostep].
+  - pose proof (run_fn_safe (nth n own_all []) s [] [] choices I (nth_own_ok n Hok)) as H.
+    destruct (run_fn s (nth n own_all []) choices) as [[s' ok] rest]. cbn. apply H.
+  - pose proof (run_fn_safe (nth p (nth n own_paths []) []) s [] [] choices I (nth_path_ok n p Hpok)) as H.
+    destruct (run_fn s (nth p (nth n own_paths []) []) choices) as [[s' ok] rest]. cbn. apply H.
+  - destruct (mem id (consumer s)) eqn:Em; [|exact I]. cbn. apply mem_In in Em.
+    constructor; cbn [cur outgoing consumer pool next_fresh].
+    + intros k Hin. apply remove_id_In in Hin as [Hin _]. now apply (li_cons _ _ _ I).
+    + apply (li_out _ _ _ I).
+    + apply (li_inj _ _ _ I).
+    + intros k [E|Hin]; [|now apply (li_pool _ _ _ I k)].
+      assert (Hc : In (cur s k) (consumer s)) by (now rewrite <- E).
+      apply (li_cons _ _ _ I) in Hc. exact Hc.
+    + apply (li_cur_lt _ _ _ I).
+    + intros x Hin. apply remove_id_In in Hin as [Hin _]. now apply (li_cons_lt _ _ _ I).
+    + intros x [<-|Hin]; [now apply (li_cons_lt _ _ _ I)|now apply (li_pool_lt _ _ _ I)].
+    + apply (li_out_lt _ _ _ I).
+    + intros x [<-|Hin] Hc; apply remove_id_In in Hc as [Hc Hne]; [congruence|now apply (li_pc _ _ _ I x)].
+    + intros x [<-|Hin]; [now apply (li_co _ _ _ I)|now apply (li_po _ _ _ I)].
+    + intros x Hin. apply remove_id_In in Hin as [Hin _]. now apply (li_co _ _ _ I).
+Qed.
+
+Theorem consumer_never_holds_current :
+  forall es k, ~ In (cur (ofinal oinit es) k) (consumer (ofinal oinit es)).
+Proof.
+  intros es k Hin.
+  pose proof (ofinal_linv own_all_ok own_paths_ok es oinit oinit_linv) as I.
+  exact (li_cons _ _ _ I k Hin).
+Qed.
+
+(* the class of defect path-sensitivity is about: a path that aliases a buffer into a sequence,
+   emits it and returns without re-pointing the field is rejected, and after it - from ANY
+   state, for any buffer kind - the next write to that field hits a buffer the consumer holds *)
+Theorem early_return_unsafe : forall (s : ost) (k : bkind) (choices : list (option Z)),
+  handoff_ok [OAlias k; OEmit] = false /\
+  (let '(s1, _, _) := run_fn s [OAlias k; OEmit] choices in write_safe s1 (OWrite k)) = false.
+Proof.
+  intros s k choices. split; [destruct k; reflexivity|].
+  cbn [run_fn oact_step write_safe cur outgoing consumer pool next_fresh].
+  destruct choices; cbn [write_safe cur consumer app mem existsb]; rewrite Z.eqb_refl; reflexivity.
+Qed.
